@@ -3,6 +3,7 @@ package cluster
 import (
 	"context"
 	"fmt"
+	"io"
 	"strconv"
 	"strings"
 	"testing"
@@ -10,6 +11,7 @@ import (
 
 	"pgregory.net/rapid"
 
+	pb "github.com/projecteru2/core/rpc/gen"
 	"github.com/projecteru2/core/types"
 
 	"verif/internal/stats"
@@ -29,6 +31,9 @@ type LambdaCase struct {
 	// CancelAfter > 0: the caller's context is cancelled after it has received that many messages
 	// (client hang-up in the middle of the run); clean-up must happen all the same
 	CancelAfter int `json:"cancel_after,omitempty"`
+	// ViaRPC: the request goes through the gRPC front end (Vibranium.RunAndWait, synchronous form) over an
+	// in-process connection; a caller that goes away is a client that cancels its stream
+	ViaRPC bool `json:"via_rpc,omitempty"`
 }
 
 func genC30(t *rapid.T) LambdaCase {
@@ -67,6 +72,7 @@ func genC30(t *rapid.T) LambdaCase {
 	if vt.Chance(t, "callerGone", 25) {
 		c.CancelAfter = rapid.IntRange(1, 6).Draw(t, "cancelAfter")
 	}
+	c.ViaRPC = vt.Chance(t, "viaRPC", 35)
 	if vt.Chance(t, "createFault", 25) {
 		name := rapid.SampledFrom([]string{"engine.VirtualizationStart@n0", "engine.VirtualizationCreate@n0", "store.AddWorkload", "engine.VirtualizationInspect@n0"}).Draw(t, "faultName")
 		c.Fault = &world.Fault{Name: name, Occ: rapid.IntRange(1, c.Count).Draw(t, "faultOcc")}
@@ -126,6 +132,43 @@ func runC30once(x *vt.Ctx, c LambdaCase) (*vt.Finding, bool) {
 	done := make(chan res, 1)
 	go func() {
 		var r res
+		if c.ViaRPC {
+			rpcf := w.NewRPC()
+			defer rpcf.Close()
+			st, err := rpcf.Client.RunAndWait(ctx)
+			if err == nil {
+				err = st.Send(&pb.RunAndWaitOptions{DeployOptions: &pb.DeployOptions{Name: d.App, Entrypoint: &pb.EntrypointOptions{Name: d.Entry, Commands: []string{"sleep", "1"}},
+					Podname: d.Pod, Image: "img:1", Count: int32(d.Count), DeployStrategy: pb.DeployOptions_AUTO, OpenStdin: c.Stdin,
+					Resources: map[string][]byte{"cpumem": []byte(fmt.Sprintf(`{"cpu-request":0.5,"cpu-limit":0.5,"memory-request":%d,"memory-limit":%d,"cpu-bind":%v}`, 32*MiB, 32*MiB, c.Bind))}}})
+			}
+			if err == nil {
+				err = st.CloseSend()
+			}
+			if err != nil {
+				r.err = err
+				done <- r
+				return
+			}
+			for {
+				m, err := st.Recv()
+				if err != nil {
+					if err != io.EOF && len(r.msgs) == 0 && len(r.ids) == 0 {
+						r.err = err
+					}
+					break
+				}
+				if m.StdStreamType == pb.StdStreamType_TYPEWORKLOADID {
+					r.ids = append(r.ids, m.WorkloadId)
+					continue
+				}
+				r.msgs = append(r.msgs, &types.AttachWorkloadMessage{WorkloadID: m.WorkloadId, Data: append([]byte(nil), m.Data...), StdStreamType: types.StdStreamType(m.StdStreamType)})
+				if c.CancelAfter > 0 && len(r.msgs) == c.CancelAfter {
+					cancel()
+				}
+			}
+			done <- r
+			return
+		}
 		var ch <-chan *types.AttachWorkloadMessage
 		r.ids, ch, r.err = w.Cal.RunAndWait(ctx, opts, inCh)
 		if r.err == nil {
@@ -148,6 +191,7 @@ func runC30once(x *vt.Ctx, c LambdaCase) (*vt.Finding, bool) {
 	}
 	w.IC.DisarmFault()
 	x.Label("count=%d stdin=%v", c.Count, c.Stdin)
+	x.Label("via-rpc=%v", c.ViaRPC)
 	if r.err != nil {
 		return vt.Failf("call-refused", "RunAndWait refused a valid request: %v", r.err), false
 	}
